@@ -208,6 +208,29 @@ def gen_cases(rng, tier):
             if rank >= 2:
                 ham['entries'] = pair_symmetrise(ham['entries'])
         cases.append({'kind': 'apply', 'norb': norb, 'mode': 'ns', 'n': na + nb, 'sz': na - nb, 'vec': vec, 'ham': ham, 'big': True})
+    # tile boundaries of the transposing / blocked C helpers (16 x 16 tiles of zimatadd and friends): sectors in which
+    # exactly one, both or neither of the two string counts is a multiple of 16; amplitudes in the first and last rows
+    # and columns and on both sides of every multiple of 16; restricted rank-1 (the only caller of zimatadd) and rank-2
+    tile_shapes = [(16, 1, 2), (16, 2, 1), (16, 1, 1), (16, 3, 1), (17, 1, 1), (8, 1, 2), (6, 3, 3), (16, 1, 0), (16, 0, 1)]
+    for k, (norb, na, nb) in enumerate(tile_shapes if tier == 'quick' else tile_shapes * 3):
+        rows, cols = fqeio.strings_of(norb, na), fqeio.strings_of(norb, nb)
+
+        def edge(m):
+            ix = {0, m - 1, max(m - 2, 0), rng.randrange(m), rng.randrange(m)}
+            for t in range(16, m + 1, 16):
+                ix |= {t - 1, min(t, m - 1)}
+            return sorted(ix)
+        er, ec = edge(len(rows)), edge(len(cols))
+        pairs = {(rng.choice(er), rng.choice(ec)) for _ in range(18)} | {(er[-1], ec[-1]), (er[0], ec[-1]), (er[-1], ec[0])}
+        vec = [[rows[i], cols[j], rng.randint(-2, 2) or 1, rng.randint(-2, 2)] for i, j in sorted(pairs)]
+        rank = 1 if k % 3 != 2 else 2
+        ham = gen_ham(rng, 'restricted', rank, norb, 'sparse' if rank == 2 else 'dense', rng.random() < 0.4, rng.random() < 0.5)
+        if rank == 1 and len(ham['entries']) > 60:
+            ham['entries'] = rng.sample(ham['entries'], 60)
+        if rank == 2:
+            ham['entries'] = ham['entries'][:8]
+        cases.append({'kind': 'apply', 'norb': norb, 'mode': 'ns', 'n': na + nb, 'sz': na - nb, 'vec': vec, 'ham': ham,
+                      'big': True, 'tile': True})
     # low filling with two electrons of one spin (needs >= 7 orbitals: n_sigma < 0.3 norb): the same-spin blocks of the
     # low-filling kernels (reference path); complex Hermitian and non-Hermitian tensors, sparse states
     for _ in range(6 if tier == 'quick' else 24):
